@@ -59,6 +59,8 @@ def main(argv):
     cases = mod.cases(tier, seed)
     if os.environ.get('TTMON_CASE_LIMIT'):
         cases = cases[:int(os.environ['TTMON_CASE_LIMIT'])]
+    if os.environ.get('TTMON_CASE_STRIDE'):
+        cases = cases[::int(os.environ['TTMON_CASE_STRIDE'])]
     mine = list(range(shard, len(cases), nshards))
     per_case_timeout = float(getattr(mod, 'CASE_TIMEOUT', {}).get(tier, 120))
 
